@@ -650,7 +650,7 @@ package vanguard
 //@   ensures[C09,C10] h.read > h.limit ==> err != nil && !errIs(err, io.EOF)
 //@   modifies h.read, #RWEND
 
-//@ pred readerOK(r) = r != nil && extern(r) && !typeIs(r, *bytes.Buffer)
+//@ pred readerOK(r) = r != nil && extern(r) && !typeIs(r, *bytes.Buffer) && (typeIs(r, *io.LimitedReader) ==> unbox(r, *io.LimitedReader) != nil)
 
 //@ func (*operation).readRequestMessage
 //@   dispatch (io.Reader).Read: none
@@ -669,11 +669,14 @@ package vanguard
 //@   ensures rw != nil ==> rwInv(rw) && rwStep(rw)
 //@   modifies msg.stage, msg.size, msg.isRequest, msg.wasCompressed, msg.buf, owned(msg.buf), blen(msg.buf), owned(rw.buf), blen(rw.buf), #RWEND
 
-//@ pred curOK(c, rw) = c == nil || (extern(c) && (typeIs(c, *bytes.Buffer) ==> unbox(c, *bytes.Buffer) != nil)) || (typeIs(c, *hardLimitReader) && hlrInv(unbox(c, *hardLimitReader)) && unbox(c, *hardLimitReader).rw == rw)
+//@ pred curOK(c, rw) = c == nil || (extern(c) && (typeIs(c, *bytes.Buffer) ==> unbox(c, *bytes.Buffer) != nil) && (typeIs(c, *io.LimitedReader) ==> unbox(c, *io.LimitedReader) != nil)) || (typeIs(c, *hardLimitReader) && hlrInv(unbox(c, *hardLimitReader)) && unbox(c, *hardLimitReader).rw == rw)
 //@ pred validER(r) = r != nil && rwInv(r.rw) && prepOK(r.rw.op) && readerOK(r.r) && 0 <= r.envRemain && r.envRemain <= 5 && curOK(r.current, r.rw)
+//@ |  && (errIs(r.err, io.EOF) ==> !(typeIs(r.current, *io.LimitedReader) && unbox(r.current, *io.LimitedReader).N > 0))
 //@ |  && (r.envRemain > 0 ==> r.current != nil)
 
 //@ func (*envelopingReader).prepareNext
+//@   ensures[C09] err == nil && old(r.current) != nil && r.rw.op.clientEnveloper != nil && r.rw.op.serverEnveloper == nil ==> r.rw.op.methodConf.streamType % 2 == 1
+//@   ensures[C09] err == nil && r.rw.op.clientEnveloper != nil ==> typeIs(r.current, *io.LimitedReader) && unbox(r.current, *io.LimitedReader).N >= 0
 //@   opt conv
 //@   dispatch (io.Reader).Read: none
 //@   requires validER(r) && r.err == nil
@@ -687,6 +690,8 @@ package vanguard
 //@   atcall[C02] (vanguard.serverEnvelopedProtocolHandler).encodeEnvelope: r.rw.op.clientEnveloper == nil && r.rw.op.contentLen == -1 ==> typeIs(r.current, *bytes.Buffer) && arg(1).length == blen(unbox(r.current, *bytes.Buffer))
 
 //@ func (*envelopingReader).Read
+//@   ensures[C09] errIs(err, io.EOF) ==> !(typeIs(r.current, *io.LimitedReader) && unbox(r.current, *io.LimitedReader).N > 0)
+//@   atcall[C09] (*envelopingReader).prepareNext: !(typeIs(r.current, *io.LimitedReader) && unbox(r.current, *io.LimitedReader).N > 0)
 //@   dispatch (io.Reader).Read: *hardLimitReader
 //@   requires validER(r)
 //@   step rwStep(r.rw)
@@ -719,6 +724,7 @@ package vanguard
 //@   ensures[C14] ownMsg(r.msg)
 
 //@ func (*transformingReader).Read
+//@   atcall[C09] (*transformingReader).prepareMessage: !r.consumedFirst || r.rw.op.serverEnveloper != nil || r.rw.op.methodConf.streamType % 2 == 1
 //@   dispatch (io.Reader).Read: none
 //@   requires validTR(r) && (r.buffer != nil ==> r.buffer != r.rw.buf)
 //@   requires[C14] ownMsg(r.msg)
@@ -862,7 +868,7 @@ package vanguard
 //@   dispatch (io.Reader).Read: none
 //@   dispatch (io.WriterTo).WriteTo: none
 //@   requires o != nil && o.bufferPool != nil && readerOK(body)
-//@   modifies #LIB0, $buf|
+//@   modifies #LIB0, $buf|, $io.LimitedReader.N
 
 // handle(): the single place where the transcoding pipeline is assembled and the service handler is
 // invoked. Established here and relied on by every responseWriter / reader method: rwFull, validER,
